@@ -237,6 +237,22 @@ pub fn header_write_async(h: &Header) -> Out<Vec<u8>> {
         Ok(out.into_inner())
     })
 }
+/// the async header writer over a sink that is Pending once per call and takes at most `max` bytes per write
+pub fn header_write_async_slow(h: &Header, max: usize) -> Out<Vec<u8>> {
+    call(|| {
+        let hd = crate::env::Handle::new(Vec::new(), Box::new(crate::env::Uniform { max, pending_each: 1 })).budget(2000, 1 << 16);
+        block_on(h.to_async_writer(&mut hd.asyn()))?;
+        Ok(hd.data())
+    })
+}
+/// the async header reader over a source that is Pending once per call and delivers at most `max` bytes per read
+pub fn header_read_async_slow(b: &[u8], max: usize) -> Out<(Header, u64)> {
+    call(|| {
+        let hd = crate::env::Handle::new(b.to_vec(), Box::new(crate::env::Uniform { max, pending_each: 1 })).budget(2000, 1 << 16);
+        let h = block_on(Header::from_async_reader(&mut hd.asyn()))?;
+        Ok((h, hd.pos()))
+    })
+}
 /// returns (header, bytes consumed)
 pub fn header_read_sync(b: &[u8]) -> Out<(Header, u64)> {
     call(|| {
